@@ -150,7 +150,7 @@ fn check_target(tg: &Target, tier: Tier, rep: &mut Report) {
                 // maps, sets and heaps have no wire order of their own: compare as multisets
                 let unordered = tg.unordered || tg.name.contains("Map") || tg.name.contains("Set") || tg.name.contains("Heap");
                 let eq = if unordered { canon(val) == canon(u0) } else { val == u0 };
-                if !eq && !(has_dups(u0) && (tg.name.contains("Map") || tg.name.contains("Set"))) {
+                if !eq && !has_dups(u0) {
                     bad = Some(("value-differs".into(), format!("native {val}, untyped {u0}")));
                 }
                 if let Some(acc) = tg.accepts {
